@@ -497,7 +497,10 @@ static void c11_check(cbor_item_t** srcp) {
   walk_dump_item(src, &s0, WD_REFCOUNTS | WD_IDENTITY);
   uint8_t* ser_src;
   size_t nser = ser_of(src, &ser_src);
+  /* copying is a matter of bits: the thread's errno, rounding mode and FTZ/DAZ flags must not influence it */
+  vh_ambient_scramble(vh_hash(ser_src, nser) >> 7);
   cbor_item_t* cp = cbor_copy(src);
+  vh_ambient_restore();
   if (!cp) {
     if (TA.refused == 0) vh_violation("copy-null", "cbor_copy returned NULL although no allocation was refused");
     VH_COUNT("copy_refused", 1);
